@@ -9,6 +9,7 @@ import (
 	"os"
 	"path/filepath"
 	"strings"
+	"time"
 
 	"github.com/nspcc-dev/neo-go/pkg/core/dao"
 	istorage "github.com/nspcc-dev/neo-go/pkg/core/interop/storage"
@@ -786,14 +787,52 @@ func (r *seqRun) gc(op Op) *sim.Violation {
 	}
 	full := refSeek(r.m.view(-1, 0), rng)
 	var visited []pair
+	// Race > 0: while the pass is at its Race-th pair, another goroutine commits a fresh value for that very key. The pass
+	// is one atomic operation of the backend (it runs inside the backend's write transaction / under its lock), so the
+	// writer can only commit after it; a pass that judged the old value and then deletes "by key" would lose the commit.
+	var wdone chan error
+	var wkey string
+	var wval []byte
+	early := false
 	err := r.disk.SeekGC(rng, func(k, v []byte) (bool, bool) {
 		idx := len(visited)
 		visited = append(visited, pair{k: clone(k), v: clone(v)})
 		drop := op.Keep>>(uint(idx)%32)&1 == 1
+		if op.Race > 0 && idx == op.Race-1 {
+			wkey = string(k)
+			wval = []byte(fmt.Sprintf("gcw%d", r.step))
+			wdone = make(chan error, 1)
+			puts, stores := map[string][]byte{}, map[string][]byte{}
+			if k[0] == byte(storage.STStorage) || k[0] == byte(storage.STTempStorage) {
+				stores[wkey] = wval
+			} else {
+				puts[wkey] = wval
+			}
+			done := make(chan error, 1)
+			go func() { done <- r.disk.inner.PutChangeSet(puts, stores) }()
+			// (real time: the writer is blocked by the backend until the pass is over; the pause only gives a backend that
+			// does not block it the chance to show that)
+			select {
+			case e := <-done:
+				early = true
+				wdone <- e
+			case <-time.After(25 * time.Millisecond):
+				go func() { wdone <- <-done }()
+			}
+		}
 		return !drop, op.Stop == 0 || len(visited) < op.Stop
 	})
 	if err != nil {
 		sim.Harnessf("SeekGC on %s: %v", r.bname, err)
+	}
+	if wdone != nil {
+		if werr := <-wdone; werr != nil {
+			sim.Harnessf("PutChangeSet during SeekGC on %s: %v", r.bname, werr)
+		}
+		r.out.Probes["seekgc_with_concurrent_commit"]++
+		if early {
+			r.out.Probes["seekgc_concurrent_commit_not_blocked"]++
+		}
 	}
 	r.out.Probes["seekgc"]++
 	r.log.Addf("%d gc p=%s s=%s back=%v keep=%x stop=%d -> %s", r.step, hx(rng.Prefix), hx(rng.Start), op.Back, op.Keep, op.Stop, fmtPairs(visited))
@@ -810,6 +849,13 @@ func (r *seqRun) gc(op Op) *sim.Violation {
 		if op.Keep>>(uint(idx)%32)&1 == 1 {
 			delete(r.m.backend, string(p.k))
 			r.out.Probes["seekgc_deleted"]++
+		}
+	}
+	if wdone != nil {
+		// the commit came after the pass had judged the key's old value: it is the key's value now
+		r.m.backend[wkey] = wval
+		if got, gerr := r.disk.inner.Get([]byte(wkey)); gerr != nil || !bytes.Equal(got, wval) {
+			return r.fail(sim.Violatef("seekgc-lost-commit", "seekgc-lost-commit/"+r.bname, "SeekGC p=%s: a value committed for key %s by another goroutine while the pass was at that key (it had judged the old value) is gone afterwards: Get = %s, %v", hx(rng.Prefix), hx([]byte(wkey)), vstr(got), gerr))
 		}
 	}
 	if v := r.audit("gc"); v != nil {
